@@ -19,6 +19,8 @@ pub struct Exec {
     last_alloc_ok: bool,
     last_log_area: usize,
     last_intern_ptr: usize,
+    /// live allocations made through `palloc`: (address, length, pattern salt)
+    allocs: Vec<(usize, usize, u8)>,
     last_intern_len: usize,
     last_alloc_len: usize,
 }
@@ -76,6 +78,7 @@ impl Exec {
             last_alloc_ok: false,
             last_log_area: 0,
             last_intern_ptr: 0,
+            allocs: Vec::new(),
             last_intern_len: 0,
             last_alloc_len: 0,
         }
@@ -331,6 +334,42 @@ impl Exec {
             "w" | "aw" => self.write_op(t),
             // fixed call sequences through the api crate's closure-taking container writers: every write
             // status as the api crate reports it (its own mapping of the provider's numeric codes)
+            "palloc" => {
+                // the exported allocator, called the way the trampoline's glue calls it
+                extern "C" {
+                    #[link_name = "_shopify_function_alloc"]
+                    fn sf_alloc(size: usize) -> *mut std::ffi::c_void;
+                }
+                let n: usize = t.get(1)?.parse().ok()?;
+                let p = unsafe { sf_alloc(n) } as usize;
+                if n == 0 {
+                    return Some(if p == 1 { "sentinel".to_string() } else { format!("zero-size request answered with {}", if p == 0 { "null" } else { "a pointer that is not the sentinel" }) });
+                }
+                if p == 0 || p == 1 {
+                    return Some(format!("BAD request of {} bytes answered with {}", n, if p == 0 { "null" } else { "the zero-size sentinel" }));
+                }
+                let (ibase, ilen) = prov::verif::input_base();
+                if p < ibase + ilen && ibase < p + n {
+                    return Some("BAD overlaps the input".to_string());
+                }
+                for &(q, m, salt) in &self.allocs {
+                    if p < q + m && q < p + n {
+                        return Some("BAD overlaps a live allocation".to_string());
+                    }
+                    let ok = (0..m).all(|i| unsafe { *((q + i) as *const u8) } == (i as u8).wrapping_mul(31).wrapping_add(salt));
+                    if !ok {
+                        return Some("BAD an earlier allocation lost its contents".to_string());
+                    }
+                }
+                let salt = (self.allocs.len() as u8).wrapping_mul(17).wrapping_add(3);
+                for i in 0..n {
+                    unsafe { *((p + i) as *mut u8) = (i as u8).wrapping_mul(31).wrapping_add(salt) };
+                }
+                if self.allocs.len() < 64 {
+                    self.allocs.push((p, n, salt));
+                }
+                Some("fresh".to_string())
+            }
             "awseq" => {
                 use api::write::Error as E;
                 let k: usize = t.get(1)?.parse().ok()?;
